@@ -124,6 +124,15 @@ class Runner:
         self.invocations += 1
         self.events.append(('handler', kind, ns, event, sid, list(args),
                             via, n))
+        if kind == 'disconnect' and self.cfg.get('disconnect_reads_environ'):
+            # a disconnect handler that looks the departing client's request
+            # environment up (to log its address, say)
+            try:
+                seen = env_label(self.sio.get_environ(sid, namespace=ns))
+            except Exception as e:
+                seen = 'raised ' + type(e).__name__
+            self.events.append(('observe', 'environ_in_disconnect_handler',
+                                ns, seen))
         if n in self.faults:
             if self.cfg.get('fault_exc') == 'cancelled' and \
                     kind == 'disconnect' and self.d.is_async and \
@@ -894,6 +903,8 @@ def normalise(results, runner):
                 evs.append(['callback', ev[1], walk(ev[2])])
             elif ev[0] == 'send':
                 evs.append(['send', eio_names.get(ev[1], '?')])
+            elif ev[0] == 'observe':
+                evs.append(['observe'] + [walk(x) for x in ev[1:]])
         e['events'] = evs
         if 'ret' in r:
             e['ret'] = walk(r['ret'])
